@@ -159,6 +159,7 @@ type sconn struct {
 	waiting  int // readers blocked in Read
 	closeLog *closeLog
 	writes   [][]byte
+	wantLis  int // harness bookkeeping (mux schedules): the live listener held for its prefix when the prefix arrived; -1 = prefix incomplete
 }
 
 type closeLog struct {
@@ -186,7 +187,7 @@ func (l *closeLog) snapshot() []int {
 }
 
 func newSconn(id int, log *closeLog) *sconn {
-	c := &sconn{id: id, closeLog: log, final: io.EOF}
+	c := &sconn{id: id, closeLog: log, final: io.EOF, wantLis: -1}
 	c.cond = sync.NewCond(&c.mu)
 	return c
 }
